@@ -38,7 +38,7 @@ Wraps == {"id", "not", "boolean", "empty", "exists"}
 WrapOut(w, S) ==
   CASE w = "id" -> EBVOf(S) [] w = "boolean" -> EBVOf(S) [] w = "not" -> NotOut(EBVOf(S))
     [] w = "empty" -> B2O(S = <<>>) [] w = "exists" -> B2O(S # <<>>)
-RelOperand(S) == Len(S) <= 1 /\ IsNodeSet(S)
+RelOperand(S) == Len(S) <= 1 /\ \A i \in 1..Len(S) : S[i] \in Nodes
 BinWRes(f, wl, wr, L0, R0) ==
   [c \in Cfgs |-> IF f = "and" THEN AndOut(WrapOut(wl, L0), WrapOut(wr, R0), IsCompat(c))
                               ELSE OrOut(WrapOut(wl, L0), WrapOut(wr, R0), IsCompat(c))]
